@@ -180,7 +180,7 @@ var c01QuickCompiledKinds = map[string]bool{"PublicInputs": true, "Proof_WiresCa
 func TestC01(t *testing.T) {
 	r := rec.New("C01")
 	defer r.Flush()
-	r.Rule("(a) leaf perturbations: leaves of proof, public inputs and circuit digest are partitioned into strata (leaf kind incl. tree/step index x round bucket {first,mid,last} x position in list {first,mid,last}); quick: per stratum of A1/k=28, B1/k=28 and two prefix instances rapid draws leaves and a perturbation in {+1,-1,random,zero,swap-with-neighbour} (computed mod p resp. mod r); thorough: every leaf position of A1 and B1 once plus all five perturbations on a sample, other proofs stratified.  (b) the verifier data of the other inner circuit.  (c) single-constant edits of the circuit description (each of 80 k_is +-1/random/swapped, every numeric parameter of every gate id +-1, gate replaced by another, selector indices and group bounds +-1, degree bits, quotient degree factor, partial products, constants, challenges, wires) whose edited description the reference verifier rejects.  (a') one perturbed leaf of every leaf kind handed to gnark's own solver on the whole circuit compiled to R1CS (and SCS in the thorough tier) with the commit range checker, i.e. the deployed proof system.  Oracle: whole VerifierCircuit must not ACCEPT (REJECT or REFUSED both fine; candidates are re-checked under bit decomposition).  Trivial (not counted) = perturbation equal to the original, or description edit the reference still accepts.  Distinct = (instance, leaf or edit, perturbation).")
+	r.Rule("(a) leaf perturbations: leaves of proof, public inputs and circuit digest are partitioned into strata (leaf kind incl. tree/step index x round bucket {first,mid,last} x position in list {first,mid,last}); quick: per stratum of A1/k=28, B1/k=28 and two prefix instances rapid draws leaves and a perturbation in {+1,-1,random,zero,swap-with-neighbour} (computed mod p resp. mod r); thorough: every leaf position of A1 and B1 once plus all five perturbations on a sample, other proofs stratified.  (b) the verifier data of the other inner circuit.  (c) single-constant edits of the circuit description (each of 80 k_is +-1/random/swapped, every numeric parameter of every gate id +-1, gate replaced by another, selector indices and group bounds +-1, degree bits, quotient degree factor, partial products, constants, challenges, wires) whose edited description the reference verifier rejects.  (a') one perturbed leaf of every leaf kind handed to gnark's own solver on the whole circuit compiled to R1CS (and SCS in the thorough tier) with the commit range checker, i.e. the deployed proof system.  Oracle: whole VerifierCircuit must not ACCEPT (REJECT or REFUSED both fine; candidates are re-checked under bit decomposition).  Trivial (not counted) = perturbation equal to the original, or description edit the reference still accepts.  Distinct = (instance, leaf or edit, perturbation).  Configuration variants: the leaf strata outside the query rounds are also perturbed for proofs checked against their description with the proof-of-work difficulty lowered (0; thorough 0, 1, 8), which remain valid instances.")
 	r.Assume("reference verifier (accepts all five real proofs, KATs) labels description edits", "a perturbed proof verifying by chance has negligible probability (2^-100 soundness target)")
 
 	var rp c01Case
@@ -239,11 +239,15 @@ func TestC01(t *testing.T) {
 	item := 0
 	const compiledShard = 1 // this shard compiles the whole circuit; it takes no share of the other work
 	mine := func(i int) bool { return rec.MineExcept(i, compiledShard) }
+	outsideRoundsOnly := false
 	leafSweep := func(base string, k, perStratum int) {
 		rn := getRunner(base, k)
 		strata := strataOf(rn)
 		r.Extra("strata:"+rn.in.Name(), fmt.Sprint(len(strata)))
 		for _, s := range strata {
+			if outsideRoundsOnly && !strings.Contains(s.name, "|-|") {
+				continue
+			}
 			item++
 			if !mine(item) {
 				continue
@@ -264,7 +268,14 @@ func TestC01(t *testing.T) {
 	if !rec.Thorough() {
 		leafSweep("A1", 28, 1)
 		leafSweep("B1", 28, 1)
+		// the same proof against a description with proof-of-work difficulty 0 (everything outside the query rounds)
+		outsideRoundsOnly = true
+		leafSweep("A1@pow0", 2, 1)
+		outsideRoundsOnly = false
 	} else {
+		for _, v := range []string{"A1@pow0", "B1@pow0", "A2@pow1", "B3@pow8"} {
+			leafSweep(v, 2, 2)
+		}
 		for _, b := range corp.Names {
 			leafSweep(b, 28, 3)
 			leafSweep(b, 1, 2)
